@@ -1,12 +1,12 @@
 package scen
 
 import (
-	"net"
-	"strings"
 	"context"
 	"errors"
 	"fmt"
 	"io"
+	"net"
+	"strings"
 	"sync"
 	"testing/synctest"
 	"time"
